@@ -14,7 +14,8 @@ import (
 // the proved fragment: programs, their jq text, their prefix form for the driver
 
 type q struct {
-	kind string // id const pipe comma iter empty arr param call error try trycatch index ite alt var bind reduce foreach
+	kind string // id const pipe comma iter empty arr param call error try trycatch index ite alt var bind reduce foreach obj
+	ents []ent  // obj: the entries
 	c4   *q     // foreach: extract (a = src, b = init, c3 = update)
 	x    int    // var, bind: the variable
 	k    string // index: the field name
@@ -22,6 +23,33 @@ type q struct {
 	c    any    // const
 	f    int    // call
 	a, b *q
+}
+
+// ent: one entry of an object construction.  form: "query" `(k): v` | "name" `a: v` | "string" `"a": v` |
+// "short" `{a}` (= a: .a) | "shortstr" `{"a"}` | "var" `{$v3}` (= v3: $v3); all but "query" have the
+// constant key ck and are compiled to `push ck; load; v`
+type ent struct {
+	form string
+	ck   string
+	k, v *q
+}
+
+func (x ent) text() string {
+	switch x.form {
+	case "query":
+		return "(" + x.k.text() + "): " + x.v.text()
+	case "name":
+		return x.ck + ": " + x.v.text()
+	case "string":
+		return strconv.Quote(x.ck) + ": " + x.v.text()
+	case "short":
+		return x.ck
+	case "shortstr":
+		return strconv.Quote(x.ck)
+	case "var":
+		return "$" + x.ck
+	}
+	panic(x.form)
 }
 
 type prog struct {
@@ -85,6 +113,12 @@ func (e *q) text() string {
 			return fmt.Sprintf("(foreach %s as $v%d (%s; %s))", e.a.text(), e.x, e.b.text(), e.c3.text())
 		}
 		return fmt.Sprintf("(foreach %s as $v%d (%s; %s; %s))", e.a.text(), e.x, e.b.text(), e.c3.text(), e.c4.text())
+	case "obj":
+		parts := make([]string, 0, len(e.ents))
+		for _, x := range e.ents {
+			parts = append(parts, x.text())
+		}
+		return "{" + strings.Join(parts, ", ") + "}"
 	case "try":
 		return "(try (" + e.a.text() + "))"
 	case "trycatch":
@@ -131,6 +165,17 @@ func (e *q) prefix(sb *strings.Builder) {
 	case "call":
 		fmt.Fprintf(sb, "call %d ", e.f)
 		e.a.prefix(sb)
+	case "obj":
+		fmt.Fprintf(sb, "obj %d ", len(e.ents))
+		for _, x := range e.ents {
+			if x.form == "query" {
+				sb.WriteString("kq ")
+				x.k.prefix(sb)
+			} else {
+				sb.WriteString("kc " + common.Canon(x.ck) + " ")
+			}
+			x.v.prefix(sb)
+		}
 	default:
 		sb.WriteString(e.kind + " ")
 	}
@@ -141,7 +186,12 @@ func (e *q) count(m map[string]int) int {
 		return 0
 	}
 	m[e.kind]++
-	return 1 + e.a.count(m) + e.b.count(m) + e.c3.count(m) + e.c4.count(m)
+	n := 1 + e.a.count(m) + e.b.count(m) + e.c3.count(m) + e.c4.count(m)
+	for _, x := range e.ents {
+		m["obj entry "+x.form]++
+		n += x.k.count(m) + x.v.count(m)
+	}
+	return n
 }
 
 func (p *prog) text() string {
@@ -206,6 +256,41 @@ func genQ(r *common.Rand, depth, maxF int, inFunc bool) *q {
 			}
 		}
 		genVars = genVars[:len(genVars)-1]
+		return e
+	}
+	if depth > 0 && r.Chance(1, 10) {
+		// object construction, 1–3 entries in every key form the fragment has; key queries are biased
+		// to strings (a constant, the parameter, `.[]`) but any query may occur (a non-string key is
+		// the error of opobject); duplicate keys are likely (few names)
+		e := &q{kind: "obj"}
+		for n := r.Range(1, 3); n > 0; n-- {
+			name := common.Pick(r, []string{"a", "b", "k"})
+			switch k := r.Intn(10); {
+			case k < 2:
+				e.ents = append(e.ents, ent{form: "query", k: genQ(r, depth-1, maxF, inFunc), v: genQ(r, depth-1, maxF, inFunc)})
+			case k < 3:
+				kq := &q{kind: "comma", a: &q{kind: "const", c: common.Pick(r, []string{"a", "b", ""})}, b: genQ(r, depth-1, maxF, inFunc)}
+				e.ents = append(e.ents, ent{form: "query", k: kq, v: genQ(r, depth-1, maxF, inFunc)})
+			case k < 4:
+				e.ents = append(e.ents, ent{form: "query", k: &q{kind: "const", c: common.Pick(r, []string{"a", "b", "k", ""})}, v: genQ(r, depth-1, maxF, inFunc)})
+			case k < 6:
+				e.ents = append(e.ents, ent{form: "name", ck: name, v: genQ(r, depth-1, maxF, inFunc)})
+			case k < 7:
+				e.ents = append(e.ents, ent{form: "string", ck: common.Pick(r, []string{"a", "b", "", "x y"}), v: genQ(r, depth-1, maxF, inFunc)})
+			case k < 8:
+				e.ents = append(e.ents, ent{form: "short", ck: name, v: &q{kind: "index", k: name}})
+			case k < 9:
+				ck := common.Pick(r, []string{"a", "b", "k"})
+				e.ents = append(e.ents, ent{form: "shortstr", ck: ck, v: &q{kind: "index", k: ck}})
+			default:
+				if len(genVars) > 0 {
+					x := common.Pick(r, genVars)
+					e.ents = append(e.ents, ent{form: "var", ck: fmt.Sprintf("v%d", x), v: &q{kind: "var", x: x}})
+				} else {
+					e.ents = append(e.ents, ent{form: "name", ck: name, v: genQ(r, depth-1, maxF, inFunc)})
+				}
+			}
+		}
 		return e
 	}
 	leaf := depth <= 0 || r.Chance(1, 5)
@@ -386,6 +471,8 @@ func canonCode(ins []gojq.VerifInstr) string {
 			} else {
 				parts[k] = fmt.Sprintf("%s %d", in.Op, in.Int)
 			}
+		case "object":
+			parts[k] = fmt.Sprintf("object %d", in.Int)
 		case "scope":
 			parts[k] = fmt.Sprintf("scope %d %d", scopeOf(in.Ints[0]), in.Ints[2])
 			decl = append(decl, scopeAt{k, in.Ints[0], in.Ints[1]})
@@ -413,7 +500,7 @@ const miniBudget = 3000 // real VM instructions; the model gets 4x as fuel (it a
 func runMini(ctx *common.Ctx, auxDriver string) {
 	r := ctx.R.Fork(0xC01B)
 	st := ctx.NewStream("mini", "Gojq.MiniVM.compileProg / step / exec (Model/MiniVM.lean) — theorem Gojq.C01Compile.compile_refines_spec_fragment",
-		"random programs of the proved fragment x random inputs: unoptimised real bytecode (gojq.VerifOptMask = all ones) = mini compiler output modulo renumbering, "+
+		"random programs of the proved fragment (incl. object construction `{(k): v, a: v, \"a\": v, a, \"a\", $x}` with generator keys and values) x random inputs: unoptimised real bytecode (gojq.VerifOptMask = all ones) = mini compiler output modulo renumbering, "+
 			"and real outputs = mini VM outputs; distinct = distinct (code, outcome) answers")
 	n := ctx.N(3000, 200000)
 	if v, err := strconv.Atoi(common.Getenv("C01AUX_MINI_N", "")); err == nil {
